@@ -5,6 +5,7 @@ go 1.23.12
 require (
 	github.com/prometheus/client_golang v1.23.0
 	github.com/saucelabs/forwarder v0.0.0
+	golang.org/x/net v0.42.0
 	golang.org/x/time v0.12.0
 )
 
@@ -32,7 +33,6 @@ require (
 	go.uber.org/multierr v1.11.0 // indirect
 	golang.org/x/crypto v0.40.0 // indirect
 	golang.org/x/exp v0.0.0-20231110203233-9a3e6036ecaa // indirect
-	golang.org/x/net v0.42.0 // indirect
 	golang.org/x/sync v0.16.0 // indirect
 	golang.org/x/sys v0.34.0 // indirect
 	golang.org/x/text v0.27.0 // indirect
